@@ -128,7 +128,7 @@ var podFields = []podField{
 func wiringCheck(t *testing.T, prop string) {
 	col := newCollector(t, prop, "production wiring round trip: generated nodes and pods are served by a small HTTP API server; the real controller.NewClient (client-go clientset, reflectors, informers, group listers) is built on it; oracle: each group's listers return exactly the nodes / pods the reference attribution assigns to it, with every field this property reads unchanged; non-trivial = a group with >= 2 nodes and >= 1 pod, cordoned or annotated or tainted nodes present; distinct by (groups, nodes, pods, shapes)")
 	profile := &world.Profile{Name: "wiring", MinGroups: 1, MaxGroups: 3, Dry: 1, Auto: 1, Default: 1, MaxInit: 8, SmallGraces: true, Steps: 12, DupTaints: true,
-		Weights: map[string]int{"addPods": 8, "targetUtil": 4, "cordon": 4, "taintExt": 5, "annotate": 5, "foreignTaint": 2, "launch": 2, "oddPod": 2, "oddNode": 1, "notReady": 2, "setCreated": 2, "schedule": 2, "finishPods": 1}}
+		Weights: map[string]int{"addPods": 8, "targetUtil": 4, "cordon": 4, "taintExt": 5, "annotate": 5, "foreignTaint": 2, "launch": 2, "oddPod": 2, "oddNode": 1, "notReady": 2, "setCreated": 2, "schedule": 2, "finishPods": 1, "clonePod": 3, "gracefulDelete": 2}}
 	rapid.Check(t, func(rt *rapid.T) {
 		col.Case()
 		// the world is only used as a generator of realistic objects here (no scans)
@@ -246,14 +246,14 @@ func wiringCheck(t *testing.T, prop string) {
 					continue
 				}
 				if w.PodInGroup(p, g) == ref.Yes {
-					wantP[p.Name] = p
+					wantP[p.Namespace+"/"+p.Name] = p
 				} else if w.PodInGroup(p, g) == ref.Either {
-					wantP[p.Name] = nil // either way
+					wantP[p.Namespace+"/"+p.Name] = nil // either way
 				}
 			}
 			gotP := map[string]*v1.Pod{}
 			for _, p := range gotPods {
-				gotP[p.Name] = p
+				gotP[p.Namespace+"/"+p.Name] = p
 			}
 			for name, wp := range wantP {
 				gp := gotP[name]
